@@ -664,6 +664,11 @@ fn op_strings(cx: &mut Ctx, a: &[u8], b: &[u8], k: u64, pl: Place) {
     for &x in it.remainder() { h = h.rotate_left(5).wrapping_add(x as u64); }
     let o = zipora::hash_map::SimdStringOps::new();
     check!(cx, cell2, &cj, o.fast_string_hash(st, k), h, "fast_string_hash");
+    check!(cx, cell2, &cj, zipora::hash_map::get_global_simd_ops().fast_string_hash(st, k), h, "global fast_string_hash");
+    if let Ok(v) = guarded(|| o.fast_string_hash(st, k)) {
+        let words = if !cx.disable.contains("avx2") { 4u8 } else if !cx.disable.contains("sse41") && !cx.disable.contains("sse42") { 2 } else { 0 };
+        cx.coq(21, a, &[words], k, Some(vec![v as i128]), &cj);
+    }
     // wildcard: b is the pattern
     if let Ok(pat) = std::str::from_utf8(b) {
         let cell3 = "string::bmi2_string_ops/wildcard";
@@ -1169,7 +1174,7 @@ fn cell_status(cell: &str) -> &'static str {
     match cell {
         "memory::simd_ops/compare" | "memory::simd_ops/find_byte" | "io::simd_validation/utf8" | "io::simd_validation/crc32c"
         | "string::hex" | "io::simd_encoding/base64" | "entropy::bit_ops" | "io::simd_memory::search/find_pattern"
-        | "io::simd_memory::search/find_any_of" | "string::bmi2_string_ops/utf8" | "io::simd_memory::copy" => "M+S",
+        | "io::simd_memory::search/find_any_of" | "string::bmi2_string_ops/utf8" | "io::simd_memory::copy" | "hash_map::simd_string_ops/fast_string_hash" => "M+S",
         _ => "S-only",
     }
 }
